@@ -2,6 +2,8 @@ package lib
 
 import (
 	"fmt"
+	"os"
+	"runtime/debug"
 	"sort"
 	"sync"
 	stdtime "time"
@@ -136,6 +138,9 @@ func (r *RecStore) Mutations() int {
 }
 
 func (r *RecStore) Load(ctx *core.Context, loc string) ([]core.Pair, error) {
+	if os.Getenv("VERIF_DEBUG_LOADS") != "" {
+		fmt.Fprintf(os.Stderr, "LOAD %s\n%s\n", loc, debug.Stack())
+	}
 	r.mu.Lock()
 	r.Loads[loc]++
 	fl := r.FailLoad
